@@ -116,13 +116,21 @@ Definition delete_range (lo hi : bytes) (s : store) : res store :=
     Ok (fold_left (fun acc e => delete cx (fst e) acc) l s)).
 
 (* BadgerDB.Get with a VersionedCtx.  GetBestKeyVersion drops FindMatch's error when no key is
-   returned, so a conflict reads as "not found"; badger hands back nil for an empty value *)
+   returned, so a conflict reads as "not found".  With repo_patches/C05-1-fix a stored empty
+   value is returned as a non-nil empty slice: nil means "not found" only. *)
 Definition point_key (tk : bytes) (s : store) : option bytes :=
   match best (get_key_versions_exact i tk s) with
   | Ok (Some k) => Some k
   | _ => None
   end.
 Definition point_get (tk : bytes) (s : store) : option bytes :=
+  match point_key tk s with
+  | Some k => kv_get k s
+  | None => None
+  end.
+(* the code before C05-1-fix: badger's ValueCopy(nil) of an empty value is nil, which every
+   caller reads as "not found" (kept for the refutation) *)
+Definition point_get_nil (tk : bytes) (s : store) : option bytes :=
   match point_key tk s with
   | Some k => match kv_get k s with Some [] => None | o => o end
   | None => None
@@ -155,7 +163,8 @@ Definition kv_keys (s : store) : res (list bytes) :=
 Definition kv_keyrange (a b : bytes) (s : store) : res (list bytes) :=
   res_bind (kv_new_tkey a) (fun ta => res_bind (kv_new_tkey b) (fun tb =>
   res_bind (keys_in_range best cx ta tb s) decode_all)).
-(* keyrangevalues: ProcessRange; entries whose stored value is empty are skipped (kv.V == nil) *)
+(* keyrangevalues: ProcessRange.  (The callback skips kv.V == nil; with C05-1-fix the range hands
+   an empty stored value over as a non-nil empty slice, so nothing is skipped.) *)
 Definition kv_keyrangevalues (a b : bytes) (s : store) : res (list kv) :=
   res_bind (kv_new_tkey a) (fun ta => res_bind (kv_new_tkey b) (fun tb =>
   res_bind (get_range best cx ta tb s) (fun l =>
@@ -163,10 +172,7 @@ Definition kv_keyrangevalues (a b : bytes) (s : store) : res (list kv) :=
        match l with
        | [] => Ok []
        | (tk, v) :: r =>
-         match v with
-         | [] => go r
-         | _ => res_bind (decode_term_tkey kc_keyvalue_NewTKey tk) (fun k => res_bind (go r) (fun l' => Ok ((k, v) :: l')))
-         end
+         res_bind (decode_term_tkey kc_keyvalue_NewTKey tk) (fun k => res_bind (go r) (fun l' => Ok ((k, v) :: l')))
        end) l))).
 (* GET key/k: GetData *)
 Definition kv_get_data (k : bytes) (s : store) : res (option bytes) :=
